@@ -45,7 +45,8 @@ impl Projector {
             }
             Node::Section(_) => {
                 blocks.push(GraphBlock::Header(
-                    self.header_level as u8 + 1,
+                    // (squash can nest deeper than a u8 counts)
+                    (self.header_level + 1).min(u8::MAX as usize) as u8,
                     self.relative(iter.inlines()),
                 ));
 
